@@ -2,6 +2,8 @@ import WS.Basic
 import WS.Spec.Mask
 import WS.Model.MaskProg
 import WS.Gen.MaskProg
+import WS.Model.Reader
+import WS.Spec.Inflate
 /-
   Command table of the driver.  Every command is a pure function String → String.
 -/
@@ -34,6 +36,59 @@ def cmdMaskProg (args : List String) : String :=
     | _, _ => "bad-args"
   | _ => "bad-args"
 
+def parseInt? (s : String) : Option Int :=
+  if s.startsWith "-" then (s.drop 1).toString.toNat?.map (fun n => -(n : Int)) else s.toNat?.map (fun n => (n : Int))
+
+/-- the reference inflater plugged into the reader model. -/
+def inflateImpl : Model.Inflate := fun dict z =>
+  let r := Spec.inflate dict z
+  { plain := r.2, ok := r.1 != .corrupt }
+
+def stopStr : Model.Stop → String
+  | .io => "io"
+  | .proto => "proto"
+  | .protoNoClose => "protonc"
+  | .limit => "limit"
+  | .inflate => "inflate"
+  | .peerClose code reason => s!"close:{code}:{toHex reason}"
+
+def evStr : Model.Ev → String
+  | .msg typ d => s!"msg {typ} {toHex d}"
+  | .partialMsg typ d why amb => s!"partial {typ} {toHex d} {stopStr why} {if amb then 1 else 0}"
+  | .fail why => s!"fail {stopStr why}"
+  | .reply op p => s!"reply {op} {toHex p}"
+
+/-- `reader client flate takeover limit change stream` -/
+def cmdReader (args : List String) : String :=
+  match args with
+  | [cl, fl, tk, lim, ch, st] =>
+    match parseInt? lim, ofHex st with
+    | some lim, some s =>
+      let (limits, dflt) : List Int × Int :=
+        match ch.splitOn ":" with
+        | [a, b] =>
+          match a.toNat?, parseInt? b with
+          | some a, some b => (List.replicate a lim, b)
+          | _, _ => ([], lim)
+        | _ => ([], lim)
+      let cfg : Model.RCfg := { client := cl == "1", flate := fl == "1", takeover := tk == "1", limit := dflt }
+      let evs := Model.readStream inflateImpl cfg limits s
+      "ok " ++ String.intercalate "|" (evs.map evStr)
+    | _, _ => "bad-args"
+  | _ => "bad-args"
+
+/-- `inflate dict z` → status and plaintext of the reference inflater -/
+def cmdInflate (args : List String) : String :=
+  match args with
+  | [d, z] =>
+    match ofHex d, ofHex z with
+    | some d, some z =>
+      let r := Spec.inflate d z
+      let st := match r.1 with | .final => "final" | .needMore => "needmore" | .corrupt => "corrupt"
+      s!"ok {st} {toHex r.2}"
+    | _, _ => "bad-args"
+  | _ => "bad-args"
+
 def handle (line : String) : String :=
   match line.splitOn " " with
   | [] => "bad-op"
@@ -41,6 +96,8 @@ def handle (line : String) : String :=
     match cmd with
     | "mask" => cmdMask args
     | "maskprog" => cmdMaskProg args
+    | "reader" => cmdReader args
+    | "inflate" => cmdInflate args
     | "ping" => "pong"
     | _ => "bad-op"
 
